@@ -71,7 +71,7 @@ func buildMalformedUpdate(r *simrt.Rand, pc PeerCfg, dut DUTCfg, pfx Prefix, tag
 		a.MED = u32p(5)
 	}
 	spec := UpdateSpec{Announce: []NLRI{{Prefix: pfx}}, Attrs: a.Attrs(v6), V6: v6, ASN4: pc.PeerASN4}
-	kind := r.Intn(15)
+	kind := r.Intn(17)
 	var m malformedUpdate
 	switch kind {
 	case 8:
@@ -169,6 +169,31 @@ func buildMalformedUpdate(r *simrt.Rand, pc PeerCfg, dut DUTCfg, pfx Prefix, tag
 		raw[alOff], raw[alOff+1] = byte(al>>8), byte(al)
 		raw[16], raw[17] = byte(len(raw)>>8), byte(len(raw))
 		m.why, m.class = fmt.Sprintf("attribute %d (fixed size 4) declared and carried with length %d", code, raw[off+2]), "attr_length"
+	case 15, 16:
+		// the last attribute (MP_REACH_NLRI moved there when there is one) declares a few octets more
+		// than the message holds; the total path attribute length is left alone
+		attrs, as, ae, okw := walkAttrs(raw)
+		if !okw || len(attrs) == 0 || ae != len(raw) && v6 {
+			return m, false
+		}
+		last := attrs[len(attrs)-1]
+		for _, x := range attrs {
+			if x.code == AttrMPReach && x.off != last.off {
+				// move MP_REACH_NLRI to the end of the block
+				blk := append([]byte(nil), raw[as:x.off]...)
+				blk = append(blk, raw[x.off+x.hdrLen+x.valLen:ae]...)
+				blk = append(blk, raw[x.off:x.off+x.hdrLen+x.valLen]...)
+				copy(raw[as:ae], blk)
+				attrs, _, _, _ = walkAttrs(raw)
+				last = attrs[len(attrs)-1]
+				break
+			}
+		}
+		if last.hdrLen != 3 || last.valLen > 240 {
+			return m, false
+		}
+		raw[last.off+2] = byte(last.valLen + 1 + r.Intn(6))
+		m.why, m.class = fmt.Sprintf("last attribute (%d) declares %d octets, the message holds %d of them", last.code, raw[last.off+2], last.valLen), "attr_length"
 	case 13, 14:
 		// AS_PATH whose segment announces one AS number more than the attribute's declared length
 		// holds; the octets of that AS number follow the attribute (counted neither in the attribute
